@@ -269,7 +269,10 @@ func PruningScenario(rng *vh.RNG, prop string, name string) *Scenario {
 	recentSide := branch(L-3-rng.Intn(10), 2, 70)
 	recentHeavy := branch(L-2, 3, 160) // wins an ordinary reorganisation near the head
 	heavyAt := prunedAt()
-	heavy := branch(heavyAt, 2, int64(L)*100+5000) // far heavier than the whole main chain: winner path
+	// stashed while lighter (WriteBlockWithoutState: no state, no receipts), then its child makes the branch far
+	// heavier than the whole main chain: the winner path re-executes the stashed block, which carries a transaction
+	heavy := []int{add(main[heavyAt], 60, TxSpec{Acct: 3, Variant: 1})}
+	heavy = append(heavy, add(heavy[0], int64(L)*100+5000, TxSpec{Acct: 3, Variant: 0}))
 	ins := func(nodes ...int) {
 		sc.Ops = append(sc.Ops, OpSpec{Sess: "p", Kind: "insert", Nodes: nodes, Seed: int64(rng.Intn(1 << 30))})
 	}
